@@ -47,6 +47,17 @@ use crate::{
 
 const KEY_T: u8 = 2;
 
+/// Development aid: `VP_ASSUME_KNOWN=key1,key2` makes generated cases that match the input-side
+/// predicate of these keys unjudged (as if the keys were listed in known_findings.json), so that
+/// the rest of the check can be validated before the coordinator registers a finding. Never
+/// active in replays.
+fn assumed_known(ctx: &Ctx, key: &str) -> bool {
+    !ctx.strict
+        && std::env::var("VP_ASSUME_KNOWN")
+            .map(|v| v.split(',').any(|k| k.trim() == key))
+            .unwrap_or(false)
+}
+
 fn hex8(id: &[u8]) -> String {
     hex::encode(&id[..4.min(id.len())])
 }
@@ -473,10 +484,11 @@ fn sized_piece(max_big: u32) -> BoxedStrategy<Piece> {
 
 fn crypto_strategy(_ctx: &Ctx) -> BoxedStrategy<CryptoCase> {
     let level = prop_oneof![
-        4 => Just(None),
-        3 => (0i32..=3).prop_map(Some),
-        2 => (-7i32..=-1).prop_map(Some),
-        2 => (4i32..=15).prop_map(Some),
+        // the higher levels allocate (and zero) tables of up to several hundred MiB per call
+        16 => Just(None),
+        12 => (0i32..=3).prop_map(Some),
+        8 => (-7i32..=-1).prop_map(Some),
+        5 => (4i32..=15).prop_map(Some),
         1 => (16i32..=22).prop_map(Some),
     ];
     let mutn = prop_oneof![
@@ -729,16 +741,7 @@ fn crypto_checks(c: &CryptoCase, out: &mut Outcome) -> Result<(), String> {
     }
 
     // --- arbitrary bytes never panic
-    let g: Vec<u8> = match &c.garbage {
-        Garbage::Raw(v) => v.clone(),
-        Garbage::Rand { seed, len } => piece_bytes(&Piece::Rand { seed: *seed, skip: 0, len: u32::from(*len) }),
-        Garbage::Frame { pos, xor } => {
-            let mut z = zstd_encode(&p2, c.level.unwrap_or(3));
-            let at = pick_idx(*pos, z.len());
-            z[at] ^= *xor;
-            z
-        }
-    };
+    let g: Vec<u8> = garbage_bytes(c, &p2);
     let some_len = NonZeroU32::new(p2.len() as u32 | 1);
     _ = no_panic("decrypt", guarded(|| decrypt(&key, &g)))?;
     _ = no_panic("decode_file", guarded(|| codec.decode_file(&g)))?;
@@ -769,8 +772,49 @@ fn zstd_encode(data: &[u8], level: i32) -> Vec<u8> {
     plain[1..].to_vec()
 }
 
-fn run_crypto(c: &CryptoCase, _ctx: &Ctx) -> Outcome {
+/// Input-side predicate of the finding "pack-header-offset-overflow": read as a pack header, the
+/// bytes hold complete entries whose lengths add up to more than u32::MAX.
+fn header_lengths_overflow(g: &[u8]) -> bool {
+    let (mut pos, mut sum) = (0usize, 0u64);
+    while pos < g.len() {
+        let need = match g[pos] {
+            0 | 1 => 37,
+            2 | 3 => 41,
+            _ => return false,
+        };
+        if g.len() - pos < need {
+            return false;
+        }
+        sum += u64::from(u32::from_le_bytes(g[pos + 1..pos + 5].try_into().unwrap()));
+        if sum > u64::from(u32::MAX) {
+            return true;
+        }
+        pos += need;
+    }
+    false
+}
+
+fn garbage_bytes(c: &CryptoCase, p2: &[u8]) -> Vec<u8> {
+    match &c.garbage {
+        Garbage::Raw(v) => v.clone(),
+        Garbage::Rand { seed, len } => piece_bytes(&Piece::Rand { seed: *seed, skip: 0, len: u32::from(*len) }),
+        Garbage::Frame { pos, xor } => {
+            let mut z = zstd_encode(p2, 1);
+            let at = pick_idx(*pos, z.len());
+            z[at] ^= *xor;
+            z
+        }
+    }
+}
+
+fn run_crypto(c: &CryptoCase, ctx: &Ctx) -> Outcome {
     let mut out = Outcome::pass();
+    if header_lengths_overflow(&garbage_bytes(c, &piece_bytes(&c.other))) {
+        out = out.known("pack-header-offset-overflow");
+        if assumed_known(ctx, "pack-header-offset-overflow") {
+            return out.skip("assumed known: pack-header-offset-overflow");
+        }
+    }
     let res = crypto_checks(c, &mut out);
     out = out
         .class(match c.level {
@@ -819,7 +863,7 @@ pub struct TamperCase {
 
 const MAX_FAULTED_FILES: usize = 40;
 /// fraction of the tamper cases that also swap files with their siblings
-const SWAP_WEIGHT: f64 = 0.0; // TEMP-VALIDATION (0.3)
+const SWAP_WEIGHT: f64 = 0.3;
 
 fn tamper_strategy(ctx: &Ctx) -> BoxedStrategy<TamperCase> {
     let thorough = ctx.tier.is_thorough();
@@ -1103,11 +1147,14 @@ fn faults_for(c: &TamperCase, key: &Key64, t: u8, id: &Id, raw: &[u8], siblings:
     out
 }
 
-fn run_tamper(c: &TamperCase, _ctx: &Ctx) -> Outcome {
+fn run_tamper(c: &TamperCase, ctx: &Ctx) -> Outcome {
     let mut out = Outcome::pass();
     if c.swap {
         // input-side predicate of the known finding: the fault list contains swaps with siblings
         out = out.known("swap_sibling").class("with_swaps");
+        if assumed_known(ctx, "swap_sibling") {
+            return out.skip("assumed known: swap_sibling");
+        }
     }
     macro_rules! fail {
         ($($arg:tt)*) => {{
@@ -1612,8 +1659,8 @@ pub fn spec() -> PropSpec {
         subs: vec![
             Box::new(Sub {
                 name: "plaintext",
-                cases_quick: 150,
-                cases_thorough: 4000,
+                cases_quick: 320,
+                cases_thorough: 8000,
                 max_shrink_iters: 150,
                 strategy: plain_strategy,
                 run: run_plain,
@@ -1628,16 +1675,16 @@ pub fn spec() -> PropSpec {
             }),
             Box::new(Sub {
                 name: "tamper",
-                cases_quick: 24,
-                cases_thorough: 500,
+                cases_quick: 128,
+                cases_thorough: 3000,
                 max_shrink_iters: 60,
                 strategy: tamper_strategy,
                 run: run_tamper,
             }),
             Box::new(Sub {
                 name: "password",
-                cases_quick: 16,
-                cases_thorough: 320,
+                cases_quick: 24,
+                cases_thorough: 480,
                 max_shrink_iters: 30,
                 strategy: pw_strategy,
                 run: run_pw,
